@@ -83,6 +83,20 @@ CLAIMED = {
               "invariant of states reached through the API, proved preserved."),
         technique='Lean 4 proof (induction over target trees and loop fuel; verified decision procedure for the put table; decode/encode round-trip) + per-run decide certificate; differential correspondence run',
     ),
+    'C01': dict(category='proof', text="Lean: step_sound (one step preserves the representation invariant WFx, never reaches UB, and commutes with the abstraction to the reference model where every handle is an independent Vec<u8>) for all 29 operations, all arguments, all environments/configurations; refines / refines_init (any script, by induction), frame (an op on one handle never changes what another reads), bytes_immutable. T2: the judge runs the Lean reference model Spec.step and the M1 model in lock-step with the real crate under the ledger allocator (random walks, boundary sweep, pair-exhaustive stream; debug+release) and evaluates the same predicates on the implementation's observations.", design='§7 C01, §3 M1', note="Trusted: Lean kernel; the hand transliteration of src/bytes.rs + src/bytes_mut.rs into Model/Core.lean (tied by T2 only: lock-step judge compares outcome, every live handle's kind / allocation class + offset / len / capacity / is_unique / contents and the allocator-event delta after every op; ~250k ops per quick run, 0 disagreements on the unchanged tree); std's Vec/Box behaviour and the allocator contract as modelled (checked by T2); OpOK (slices <= isize::MAX); 64-bit usize.",
+        technique='Lean 4 proof: inductive representation invariant + refinement to a reference model over a hand-written executable model of the core; differential correspondence check (lock-step judge) under a ledger allocator'),
+    'C02': dict(category='proof', text="Lean: no_ub — from every well-formed state no operation with any argument value reaches a model-level UB (every raw-memory primitive of the model checks live/in-bounds/initialised/layout-exact/parity-decoded), in every configuration; invariant W1–W5 preserved (step_sound). T2: ledger allocator (layout-exact frees, red zones, poison+quarantine, unknown-pointer frees), every handle's [ptr, ptr+cap) inside one live block after every op, process-death detection, out-of-contract and near-usize::MAX arguments, debug and release. PARTIAL by nature: byte/allocation level only; provenance and aliasing rules of the Rust abstract machine are not expressible in M1 (see DESIGN).", design='§7 C02', note="Trusted: Lean kernel; the hand transliteration of src/bytes.rs + src/bytes_mut.rs into Model/Core.lean (tied by T2 only: lock-step judge compares outcome, every live handle's kind / allocation class + offset / len / capacity / is_unique / contents and the allocator-event delta after every op; ~250k ops per quick run, 0 disagreements on the unchanged tree); std's Vec/Box behaviour and the allocator contract as modelled (checked by T2); OpOK (slices <= isize::MAX); 64-bit usize.",
+        technique='Lean 4 proof: inductive representation invariant + refinement to a reference model over a hand-written executable model of the core; differential correspondence check (lock-step judge) under a ledger allocator'),
+    'C04': dict(category='proof', text='Lean: exclusivity (exclusiveB) and in-bounds (handleOKB) are conjuncts of the invariant preserved by step_sound; reserve_post (capacity-len >= n, len unchanged; contents by refines), reserve_unrepresentable (panics in every configuration), try_reclaim_post (true: same guarantee, no byte-buffer allocation; false: address/len/cap unchanged). T2: disjointness and containment of all BytesMut capacity ranges against the ledger after every op, fill-spare-capacity-then-reread, reserve/try_reclaim arguments around 0, spare, allocation size, isize::MAX, usize::MAX at every offset.', design='§7 C04', note="Trusted: Lean kernel; the hand transliteration of src/bytes.rs + src/bytes_mut.rs into Model/Core.lean (tied by T2 only: lock-step judge compares outcome, every live handle's kind / allocation class + offset / len / capacity / is_unique / contents and the allocator-event delta after every op; ~250k ops per quick run, 0 disagreements on the unchanged tree); std's Vec/Box behaviour and the allocator contract as modelled (checked by T2); OpOK (slices <= isize::MAX); 64-bit usize.",
+        technique='Lean 4 proof: inductive representation invariant + refinement to a reference model over a hand-written executable model of the core; differential correspondence check (lock-step judge) under a ledger allocator'),
+    'C07': dict(category='proof', text="Lean: zero_copy_{clone,slice,splitOff,splitTo,inplace(truncate/clear/freeze/from Vec),advance,unsplit,tryIntoMut}: result handles at source address + logical offset (also for empty split results), no alloc event, no region's data changed. T2: as_ptr equations on source and result (ledger block + offset) and no align-1 allocation in the op's ledger delta.", design='§7 C07', note="Trusted: Lean kernel; the hand transliteration of src/bytes.rs + src/bytes_mut.rs into Model/Core.lean (tied by T2 only: lock-step judge compares outcome, every live handle's kind / allocation class + offset / len / capacity / is_unique / contents and the allocator-event delta after every op; ~250k ops per quick run, 0 disagreements on the unchanged tree); std's Vec/Box behaviour and the allocator contract as modelled (checked by T2); OpOK (slices <= isize::MAX); 64-bit usize.",
+        technique='Lean 4 proof: inductive representation invariant + refinement to a reference model over a hand-written executable model of the core; differential correspondence check (lock-step judge) under a ledger allocator'),
+    'C08': dict(category='proof', text="Lean: is_unique_iff (answer = 'no other live handle names the storage', false for static/owner), try_into_mut_iff (succeeds exactly when unique, same region/offset/len, no byte-buffer allocation), reclaim_whole / reserve_whole_no_alloc (an empty handle alone on its allocation gets try_reclaim(n) = true for every n up to the allocation size, without allocating). T2: is_unique of every Bytes after every op against the set of live handles sharing the ledger block / control block.", design='§7 C08', note="Trusted: Lean kernel; the hand transliteration of src/bytes.rs + src/bytes_mut.rs into Model/Core.lean (tied by T2 only: lock-step judge compares outcome, every live handle's kind / allocation class + offset / len / capacity / is_unique / contents and the allocator-event delta after every op; ~250k ops per quick run, 0 disagreements on the unchanged tree); std's Vec/Box behaviour and the allocator contract as modelled (checked by T2); OpOK (slices <= isize::MAX); 64-bit usize.",
+        technique='Lean 4 proof: inductive representation invariant + refinement to a reference model over a hand-written executable model of the core; differential correspondence check (lock-step judge) under a ledger allocator'),
+    'C13': dict(category='proof', text="Lean: panic_atomic (a panicking call leaves a well-formed state whose abstraction is the previous one — contents, lengths, kinds — except the handle moved into unsplit), no_ub for all argument values. T2: catch_unwind around every call, full handle table compared with the pre-state after every panic, script continues and ends with a balanced ledger; 'mustPanic' contract oracle (documented panics happen, in-contract calls do not panic).", design='§7 C13', note="Trusted: Lean kernel; the hand transliteration of src/bytes.rs + src/bytes_mut.rs into Model/Core.lean (tied by T2 only: lock-step judge compares outcome, every live handle's kind / allocation class + offset / len / capacity / is_unique / contents and the allocator-event delta after every op; ~250k ops per quick run, 0 disagreements on the unchanged tree); std's Vec/Box behaviour and the allocator contract as modelled (checked by T2); OpOK (slices <= isize::MAX); 64-bit usize.",
+        technique='Lean 4 proof: inductive representation invariant + refinement to a reference model over a hand-written executable model of the core; differential correspondence check (lock-step judge) under a ledger allocator'),
+    'C05': dict(category='proof', text="Lean (Model/Conc.lean, RA-view semantics; any number of threads/handles/steps; orderings are a parameter): ra_safe — if the orderings satisfy the decidable lower bound Sufficient then no reachable state has a data race on buffer memory, a use after free or a double free; freed_no_handles; unique_is_sole (a holder that loads 1 is the only holder: no stale 1); toVec_exclusive; four tightness theorems (each bound of Sufficient is necessary). T1: orderings + shape facts of the 32 atomic sites regenerated from the source each run, certificate `Sufficient ords` by decide. T2: nine loom models of the real code x five representations through the hook, ghost UnsafeCell per buffer (read on handle reads, written on deallocation by the model file's global allocator and after zero-copy conversion), exactly-once deallocation, at most one zero-copy owner.", design='§7 C05, §3 M5', note="Trusted: Lean kernel; the RA-view semantics as a model of C11's RA+relaxed fragment; M5 protocol model (hand-written, tied by T1 shape facts and loom); Rust ownership/borrowing; loom (preemption bound 3 quick / 5 thorough). PARTIAL: the promotion protocol on the `data` word (shallow_clone_vec CAS) is covered by loom models p2/p8 only, not by a Lean theorem.", technique='Lean 4 proof: inductive invariant over a small-step release/acquire view semantics + per-run decide certificate over orderings translated from the source; loom exploration of the real code as correspondence / failing-schedule search'),
+    'C06': dict(category='proof', text="Lean (Model/Conc.lean, RA-view semantics; any number of threads/handles/steps; orderings are a parameter): ra_safe — if the orderings satisfy the decidable lower bound Sufficient then no reachable state has a data race on buffer memory, a use after free or a double free; freed_no_handles; unique_is_sole (a holder that loads 1 is the only holder: no stale 1); toVec_exclusive; four tightness theorems (each bound of Sufficient is necessary). T1: orderings + shape facts of the 32 atomic sites regenerated from the source each run, certificate `Sufficient ords` by decide. T2: nine loom models of the real code x five representations through the hook, ghost UnsafeCell per buffer (read on handle reads, written on deallocation by the model file's global allocator and after zero-copy conversion), exactly-once deallocation, at most one zero-copy owner.", design='§7 C06, §3 M5', note="Trusted: Lean kernel; the RA-view semantics as a model of C11's RA+relaxed fragment; M5 protocol model (hand-written, tied by T1 shape facts and loom); Rust ownership/borrowing; loom (preemption bound 3 quick / 5 thorough). PARTIAL: the promotion protocol on the `data` word (shallow_clone_vec CAS) is covered by loom models p2/p8 only, not by a Lean theorem.", technique='Lean 4 proof: inductive invariant over a small-step release/acquire view semantics + per-run decide certificate over orderings translated from the source; loom exploration of the real code as correspondence / failing-schedule search'),
 }
 
 NOT_YET = "not claimed yet: machinery for this property is still under construction (build order in DESIGN.md §10)"
